@@ -1247,6 +1247,18 @@ class Sim:
             if live is not None:
                 self.live_lock_breaks += 1
                 self.log("LIVE_LOCK_BROKEN", base, "holder", live.pid, live.host, "by", a.pid, a.host)
+        if ev == "os.remove" and base.endswith(".lock"):
+            # a lock marker is about to be deleted: by its holder (release) - or by somebody else?  (The lock library's own
+            # stale-marker break renames first; a plain removal of another live process's marker can only be JADE's doing.)
+            try:
+                with open(p) as f:
+                    holder = int(f.readline().strip())
+            except (OSError, ValueError):
+                holder = None
+            live = next((b for b in self.actors.values() if b.pid == holder and b is not a and b.state != "dead"), None)
+            if live is not None:
+                prop = "C10" if base == "cluster_config.json.lock" else "C08"
+                self.viol(prop, "live-lock-removed", f"{a.cmd[:40]}@{a.host} (pid {a.pid}) removes {base}, which is held by the live process {live.pid} ({live.cmd[:40]}@{live.host}): from here on the lock excludes nobody")
         if ev == "open" and base == "results.json" and is_write_open(msg):
             self.results_json_writes.append((self.steps, self.epoch))
         if ev == "open" and is_write_open(msg) and re.match(r"(config_batch_\d+\.json|run_batch_\d+\.sh)$", base):
